@@ -376,3 +376,6 @@ func OpenRA(kind, dir string, file []byte, o Opts) (RA, error) {
 
 // WrapBS wraps an already opened read-only blockstore.
 func WrapBS(bs *blockstore.ReadOnly) RA { return raBS{bs} }
+
+// WrapST wraps an already opened readable storage.
+func WrapST(st storage.ReadableCar) RA { return raST{st} }
